@@ -41,6 +41,30 @@ func c13Pack(src []byte) string {
 	return Safely(func() string { return "ok " + Hx(capnp.VerifPack(nil, src)) })
 }
 
+// Unpack appending to a dst whose spare capacity holds stale non-zero bytes (the scratch-buffer
+// pattern buf, _ = Unpack(buf[:0], next)): the appended part must equal Unpack(nil, src).
+func c13UnpackDirty(src []byte, pre int) string {
+	return Safely(func() string {
+		buf := make([]byte, 1<<16)
+		for i := range buf {
+			buf[i] = 0xa5
+		}
+		out, err := capnp.VerifUnpack(buf[:pre], src)
+		if err != nil {
+			return "err"
+		}
+		if len(out) < pre {
+			return "short"
+		}
+		for i := 0; i < pre; i++ {
+			if out[i] != 0xa5 {
+				return "prefix-clobbered"
+			}
+		}
+		return "ok " + Hx(out[pre:])
+	})
+}
+
 func c13Unpack(src []byte) string {
 	return Safely(func() string {
 		out, err := capnp.VerifUnpack(nil, src)
@@ -86,6 +110,139 @@ func c13Stream(src []byte, chunks, sizes []int, bufSize int, wordAPI bool) strin
 			}
 		}
 	})
+}
+
+// c13StreamFull consumes the Reader the way io.ReadFull does (capnp.Decoder and the packed RPC
+// transport read this way): an error returned together with the bytes that complete the
+// requested size is DROPPED, as io.ReadAtLeast drops it, so a truncation the Reader reports only
+// once, together with data, is lost.  The verdict must still be the one-shot decoder's.
+func c13StreamFull(src []byte, chunks, sizes []int, bufSize int) string {
+	return Safely(func() string {
+		rd := capnp.VerifNewPackedReader(&chunkReader{data: append([]byte(nil), src...), chunks: chunks}, bufSize)
+		var out []byte
+		for k := 0; ; k++ {
+			if len(out) > 64<<20 {
+				return "runaway"
+			}
+			buf := make([]byte, sizes[k%len(sizes)])
+			n := 0
+			var err error
+			for n < len(buf) && err == nil {
+				var nn int
+				nn, err = rd.Read(buf[n:])
+				n += nn
+			}
+			if n >= len(buf) {
+				err = nil
+			}
+			out = append(out, buf[:n]...)
+			if err == io.EOF {
+				return "ok " + Hx(out)
+			}
+			if err != nil {
+				return "err"
+			}
+		}
+	})
+}
+
+// frameOf builds the stream frame of the given segments (segment table + segments).
+func frameOf(segs [][]byte) []byte {
+	var b []byte
+	put := func(v uint32) { b = append(b, byte(v), byte(v>>8), byte(v>>16), byte(v>>24)) }
+	put(uint32(len(segs) - 1))
+	for _, s := range segs {
+		put(uint32(len(s) / 8))
+	}
+	if len(b)%8 != 0 {
+		put(0)
+	}
+	for _, s := range segs {
+		b = append(b, s...)
+	}
+	return b
+}
+
+// c13EncPacked: the message with the given frame pieces (segment table, then one piece per segment)
+// written by NewPackedEncoder, which packs piece by piece: the bytes must be the concatenation of
+// Pack(piece) (the model's prediction) and NewPackedDecoder / UnmarshalPacked must give the frame back.
+func c13EncPacked(pieces [][]byte) string {
+	return Safely(func() string {
+		frame := bytes.Join(pieces, nil)
+		msg, err := capnp.Unmarshal(append([]byte(nil), frame...))
+		if err != nil {
+			return "unmarshal-err"
+		}
+		var w bytes.Buffer
+		if err := capnp.NewPackedEncoder(&w).Encode(msg); err != nil {
+			return "encode-err"
+		}
+		enc := append([]byte(nil), w.Bytes()...)
+		return packedBack(enc, frame)
+	})
+}
+
+// c13MarshalPacked: MarshalPacked of the message whose frame is `frame` must be Pack(frame).
+func c13MarshalPacked(frame []byte) string {
+	return Safely(func() string {
+		msg, err := capnp.Unmarshal(append([]byte(nil), frame...))
+		if err != nil {
+			return "unmarshal-err"
+		}
+		mp, err := msg.MarshalPacked()
+		if err != nil {
+			return "marshalpacked-err"
+		}
+		return packedBack(mp, frame)
+	})
+}
+
+func packedBack(enc, frame []byte) string {
+	m2, err := capnp.NewPackedDecoder(bytes.NewReader(enc)).Decode()
+	if err != nil {
+		return "decode-err"
+	}
+	b2, err := m2.Marshal()
+	if err != nil || !bytes.Equal(b2, frame) {
+		return "decode-differs"
+	}
+	m3, err := capnp.UnmarshalPacked(enc)
+	if err != nil {
+		return "unmarshalpacked-err"
+	}
+	b3, err := m3.Marshal()
+	if err != nil || !bytes.Equal(b3, frame) {
+		return "unmarshalpacked-differs"
+	}
+	return "ok " + Hx(enc)
+}
+
+// c13DecPacked: NewPackedDecoder over a (possibly cut) packed stream of frames: "acc k" when k
+// messages were decoded and the stream then ended with a clean io.EOF, "rej" for any other end.
+func c13DecPacked(src []byte, chunks []int, reuse bool) string {
+	return Safely(func() string {
+		d := capnp.NewPackedDecoder(&chunkReader{data: append([]byte(nil), src...), chunks: chunks})
+		if reuse {
+			d.ReuseBuffer()
+		}
+		for k := 0; k < 1<<20; k++ {
+			_, err := d.Decode()
+			if err == io.EOF {
+				return fmt.Sprintf("acc %d", k)
+			}
+			if err != nil {
+				return "rej"
+			}
+		}
+		return "runaway"
+	})
+}
+
+func min(a, b int) int {
+	if a < b {
+		return a
+	}
+	return b
 }
 
 // genWord produces one word with a chosen zero/non-zero pattern.
@@ -136,6 +293,10 @@ func genPayload(r *Rand, maxWords int) []byte {
 			b = append(b, genWord(r, 0xff)...)
 			nw++
 		}
+		if r.Intn(6) == 0 { // a word with a single non-zero byte (any position) right after whatever came
+			b = append(b, genWord(r, 1<<uint(r.Intn(8)))...)
+			nw++
+		}
 	}
 	return b
 }
@@ -161,6 +322,10 @@ func runC13(out *Out, r *Rand, tier string, replay []string) {
 			src := Unhx(f[1])
 			res := c13Unpack(src)
 			out.Case("unpack", line, res, Cls(res), len(src) > 1)
+		case "unpackdirty":
+			src := Unhx(f[1])
+			res := c13UnpackDirty(src, ParseInts(f[2])[0])
+			out.Case("unpackdirty", line, res, Cls(res), len(src) > 1)
 		case "stream":
 			src := Unhx(f[1])
 			res := c13Stream(src, ParseInts(f[2]), ParseInts(f[3]), ParseInts(f[4])[0], false)
@@ -169,6 +334,25 @@ func runC13(out *Out, r *Rand, tier string, replay []string) {
 			src := Unhx(f[1])
 			res := c13Stream(src, ParseInts(f[2]), []int{8}, ParseInts(f[3])[0], true)
 			out.Case("streamword", line, res, Cls(res), len(src) > 1)
+		case "streamfull":
+			src := Unhx(f[1])
+			res := c13StreamFull(src, ParseInts(f[2]), ParseInts(f[3]), ParseInts(f[4])[0])
+			out.Case("streamfull", line, res, Cls(res), len(src) > 1)
+		case "encpacked":
+			var pieces [][]byte
+			for _, h := range f[1:] {
+				pieces = append(pieces, Unhx(h))
+			}
+			res := c13EncPacked(pieces)
+			out.Case("encpacked", line, res, Cls(res), len(pieces) > 2)
+		case "marshalpacked":
+			src := Unhx(f[1])
+			res := c13MarshalPacked(src)
+			out.Case("marshalpacked", line, res, Cls(res), len(src) > 16)
+		case "decpacked":
+			src := Unhx(f[1])
+			res := c13DecPacked(src, ParseInts(f[3]), f[4] == "1")
+			out.Case("decpacked", line, res, Cls(res), len(src) > 1)
 		default:
 			panic("bad case " + line)
 		}
@@ -192,13 +376,26 @@ func runC13(out *Out, r *Rand, tier string, replay []string) {
 		do("pack " + Hx(w))
 		do("pack " + Hx(append(append([]byte{}, w...), make([]byte, 8)...)))
 		do("pack " + Hx(append(append([]byte{}, w...), genWord(r, 0xff)...)))
+		// a zero word (or two) followed by the pattern word: the zero-run scan must stop at it
+		do("pack " + Hx(append(make([]byte, 8), w...)))
+		do("pack " + Hx(append(make([]byte, 16), w...)))
 		p := capnp.VerifPack(nil, w)
 		do("unpack " + Hx(p))
+		do(fmt.Sprintf("unpackdirty %s %d", Hx(p), 8*(m%3)))
+		do(fmt.Sprintf("unpackdirty %s %d", Hx(capnp.VerifPack(nil, append(append(make([]byte, 8), w...), make([]byte, 24)...))), 8))
 		for cut := 0; cut < len(p); cut++ {
 			do("unpack " + Hx(p[:cut]))
 			do(fmt.Sprintf("streamword %s %s %d", Hx(p[:cut]), "4096", 16))
+			do(fmt.Sprintf("streamfull %s %s %s %d", Hx(p[:cut]), "4096", "8", 16))
+		}
+		// the same word as the LAST word of a longer output, the stream cut before its count byte
+		p2 := capnp.VerifPack(nil, append(genWord(r, 0x55), w...))
+		for cut := len(p2) - 2; cut < len(p2) && cut >= 0; cut++ {
+			do(fmt.Sprintf("streamfull %s %s %s %d", Hx(p2[:cut]), "4096", "16", 4096))
+			do(fmt.Sprintf("streamfull %s %s %s %d", Hx(p2[:cut]), "3", "8", 16))
 		}
 	}
+	genFrames(do, r, tier)
 	for i := 0; i < n; i++ {
 		mw := maxWords
 		if i%10 != 0 {
@@ -209,14 +406,21 @@ func runC13(out *Out, r *Rand, tier string, replay []string) {
 		packedForm := safePack(payload)
 		// valid packed input through every decoder
 		do("unpack " + Hx(packedForm))
+		if len(payload) < 30000 {
+			do(fmt.Sprintf("unpackdirty %s %d", Hx(packedForm), 8*r.Intn(5)))
+		}
 		do(fmt.Sprintf("stream %s %s %s %d", Hx(packedForm), Ints(genChunks(r)), Ints(genSizes(r)), 16+r.Intn(3)*2040))
 		do(fmt.Sprintf("streamword %s %s %d", Hx(packedForm), Ints(genChunks(r)), 16+r.Intn(2)*4080))
+		// ReadFull-style consumers: request sizes that end exactly on the output's end, on a word, or anywhere
+		do(fmt.Sprintf("streamfull %s %s %s %d", Hx(packedForm), Ints(genChunks(r)), Ints(genFullSizes(r, len(payload))), 16+r.Intn(3)*2040))
 		// truncations: every prefix for short inputs, random prefixes otherwise
 		if len(packedForm) <= 40 {
 			for cut := 0; cut < len(packedForm); cut++ {
 				do("unpack " + Hx(packedForm[:cut]))
 				do(fmt.Sprintf("stream %s %s %s %d", Hx(packedForm[:cut]), Ints(genChunks(r)), Ints(genSizes(r)), 16))
 				do(fmt.Sprintf("streamword %s %s %d", Hx(packedForm[:cut]), Ints(genChunks(r)), 16))
+				do(fmt.Sprintf("streamfull %s %s %s %d", Hx(packedForm[:cut]), Ints(genChunks(r)), Ints(genFullSizes(r, len(payload))), 16))
+				do(fmt.Sprintf("streamfull %s %s %s %d", Hx(packedForm[:cut]), "4096", "8", 4096))
 			}
 		} else {
 			for k := 0; k < 6; k++ {
@@ -224,6 +428,7 @@ func runC13(out *Out, r *Rand, tier string, replay []string) {
 				do("unpack " + Hx(packedForm[:cut]))
 				do(fmt.Sprintf("stream %s %s %s %d", Hx(packedForm[:cut]), Ints(genChunks(r)), Ints(genSizes(r)), 16+r.Intn(2)*4080))
 				do(fmt.Sprintf("streamword %s %s %d", Hx(packedForm[:cut]), Ints(genChunks(r)), 16))
+				do(fmt.Sprintf("streamfull %s %s %s %d", Hx(packedForm[:cut]), Ints(genChunks(r)), Ints(genFullSizes(r, len(payload))), 16+r.Intn(2)*4080))
 			}
 		}
 		// malformed stream: mutated bytes / random bytes
@@ -251,6 +456,124 @@ func runC13(out *Out, r *Rand, tier string, replay []string) {
 		}
 	}
 	out.Close("payloads: runs of zero / literal / mixed words with run lengths around 254..257 and 510; packed inputs: valid, every or random prefix, mutated, random. distinct = distinct case line; non-trivial = non-empty payload / packed input of at least 2 bytes")
+}
+
+// genFullSizes: request sizes for the ReadFull-style consumer, biased to sizes that divide the
+// output length exactly (the last request then ends exactly where the data ends).
+func genFullSizes(r *Rand, outLen int) []int {
+	switch r.Intn(4) {
+	case 0:
+		if outLen > 0 {
+			return []int{outLen}
+		}
+	case 1:
+		return []int{8}
+	case 2:
+		if outLen >= 16 {
+			return []int{8, outLen - 8}
+		}
+	}
+	return genSizes(r)
+}
+
+// genFrames: packed Encoder / Decoder cases on whole messages (C13's observation points
+// NewPackedEncoder / MarshalPacked / UnmarshalPacked / NewPackedDecoder).
+func genFrames(do func(string), r *Rand, tier string) {
+	seg := func(words int, dense bool) []byte {
+		if dense {
+			b := make([]byte, 8*words)
+			for i := range b {
+				b[i] = byte(1 + r.Intn(255))
+			}
+			return b
+		}
+		return genPayloadExact(r, words)
+	}
+	var msgs [][][]byte
+	// small multi-segment messages
+	for i := 0; i < 12; i++ {
+		n := 1 + r.Intn(4)
+		var segs [][]byte
+		for j := 0; j < n; j++ {
+			segs = append(segs, seg(1+r.Intn(6), r.Intn(3) == 0))
+		}
+		msgs = append(msgs, segs)
+	}
+	// large ones: packed sizes around 64 KiB before the last segment (dense words pack to 1.03x)
+	for _, big := range []int{8000, 8190, 8192, 8200, 9000} {
+		msgs = append(msgs, [][]byte{seg(big, true), seg(3, false)})
+		msgs = append(msgs, [][]byte{seg(2, false), seg(big, true), seg(1+r.Intn(4), true)})
+	}
+	if tier == "thorough" {
+		for _, big := range []int{16384, 20000} {
+			msgs = append(msgs, [][]byte{seg(big, true), seg(big/2, true), seg(5, false)})
+		}
+	}
+	for _, segs := range msgs {
+		fr := frameOf(segs)
+		hdrLen := len(fr)
+		line := ""
+		for _, sg := range segs {
+			hdrLen -= len(sg)
+			line += " " + Hx(sg)
+		}
+		do("encpacked " + Hx(fr[:hdrLen]) + line)
+		do("marshalpacked " + Hx(fr))
+	}
+	// streams of frames through NewPackedDecoder, whole and cut at every byte near the frame ends
+	for i := 0; i < 10; i++ {
+		nf := 1 + r.Intn(3)
+		var stream []byte
+		var lens []int
+		var ends []int
+		total := 0
+		for j := 0; j < nf; j++ {
+			var segs [][]byte
+			for k := 0; k < 1+r.Intn(2); k++ {
+				words := 1 + r.Intn(4)
+				s := genPayloadExact(r, words)
+				if k == 0 && r.Bool() {
+					// the frame ends with an all-zero or a dense word: its run count byte is the stream's last byte
+					if r.Bool() {
+						copy(s[len(s)-8:], make([]byte, 8))
+					} else {
+						copy(s[len(s)-8:], genWord(r, 0xff))
+					}
+				}
+				segs = append(segs, s)
+			}
+			if len(segs) == 2 {
+				segs[0], segs[1] = segs[1], segs[0]
+			}
+			fr := frameOf(segs)
+			total += len(fr)
+			lens = append(lens, total)
+			stream = append(stream, capnp.VerifPack(nil, fr)...)
+			ends = append(ends, len(stream))
+		}
+		cuts := map[int]bool{len(stream): true}
+		for _, e := range ends {
+			for d := -3; d <= 1; d++ {
+				if e+d >= 0 && e+d <= len(stream) {
+					cuts[e+d] = true
+				}
+			}
+		}
+		for k := 0; k < 6; k++ {
+			cuts[r.Intn(len(stream)+1)] = true
+		}
+		for cut := 0; cut <= len(stream); cut++ {
+			if cuts[cut] {
+				do(fmt.Sprintf("decpacked %s %s %s %d", Hx(stream[:cut]), Ints(lens), Ints(genChunks(r)), r.Intn(2)))
+			}
+		}
+	}
+}
+
+// genPayloadExact: a payload of exactly `words` words.
+func genPayloadExact(r *Rand, words int) []byte {
+	b := genPayload(r, words)
+	return b[:8*words]
 }
 
 func genSizes(r *Rand) []int {
